@@ -657,3 +657,62 @@ fn verif_native_size_extremes_cli() {
     let _ = std::fs::remove_dir_all(&dir);
     verif_out(&format!("VERIF-NATIVE name={} evaluated={} distinct={}", name, evaluated, evaluated));
 }
+
+fn run_lace_full(args: &[&str], input: &[u8]) -> Option<(i32, String, String)> {
+    use std::io::Write as _;
+    let bin = std::env::var("VERIF_LACE_BIN").ok()?;
+    let mut child = std::process::Command::new(bin).args(args).stdin(std::process::Stdio::piped()).stdout(std::process::Stdio::piped())
+        .stderr(std::process::Stdio::piped()).spawn().ok()?;
+    if let Some(mut stdin) = child.stdin.take() { let _ = stdin.write_all(input); }
+    let out = child.wait_with_output().ok()?;
+    Some((out.status.code().unwrap_or(-1), String::from_utf8_lossy(&out.stdout).to_string(), String::from_utf8_lossy(&out.stderr).to_string()))
+}
+
+/// C14 transport independence at the process level (the Stdin reader's I/O loop is outside every contract): 5 scripts with empty
+/// commands (blank lines, `;;`, `; ;`, leading / trailing separators) mean the same — exit status, stdout and stderr — as the
+/// script without the empty commands given through --command, when given through --command, through stdin separated by newlines,
+/// through stdin separated by ';', and split between --command and stdin at every position
+#[test]
+fn verif_native_transport_cli() {
+    let name = "verif_native_transport_cli";
+    if std::env::var("VERIF_LACE_BIN").is_err() { verif_out(&format!("VERIF-NATIVE name={} evaluated=0 distinct=0", name)); return; }
+    let dir = std::env::temp_dir().join(format!("lace-verif-transport-{}", std::process::id()));
+    std::fs::create_dir_all(&dir).unwrap();
+    let asm = dir.join("t.asm");
+    std::fs::write(&asm, "lea r0, s\nputs\nadd r1, r1, #3\nhalt\ns .stringz \"hi\"\n").unwrap();
+    let a = asm.to_str().unwrap();
+    let scripts: [&[&str]; 5] = [
+        &["registers", "", "print r0", "", "echo done", "move r0 5", " ", "print r0"],
+        &["", "step", "", "", "print r1", "step into 2", "print r1", ""],
+        &["break add x3002", "continue", "", "print r1", "", "continue"],
+        &["echo a", "", "echo b", " ", "", "echo c", "quit", "echo never"],
+        &["", "", "step", "registers"],
+    ];
+    let mut evaluated = 0u64;
+    for sc in scripts {
+        let plain: Vec<&str> = sc.iter().copied().filter(|c| !c.trim().is_empty()).collect();
+        let reference = run_lace_full(&["debug", "-m", "--command", &plain.join(";"), a], b"").expect("lace binary");
+        let mut variants: Vec<(String, Option<String>, String)> = vec![
+            ("--command, ';'".into(), Some(sc.join(";")), String::new()),
+            ("stdin, newlines".into(), None, sc.join("\n") + "\n"),
+            ("stdin, ';'".into(), None, sc.join(";") + "\n"),
+        ];
+        for k in 1..sc.len() {
+            variants.push((format!("split after {} commands", k), Some(sc[..k].join(";")), sc[k..].join("\n") + "\n"));
+        }
+        for (how, arg, input) in variants {
+            evaluated += 1;
+            let got = match &arg {
+                Some(c) => run_lace_full(&["debug", "-m", "--command", c, a], input.as_bytes()),
+                None => run_lace_full(&["debug", "-m", a], input.as_bytes()),
+            }.expect("lace binary");
+            if got != reference {
+                verif_out(&format!("VERIF-COUNTEREXAMPLE name={} input=script {:?} via {} detail=exit {} stdout {:?} stderr {:?}; the same commands without the empty ones through --command: exit {} stdout {:?} stderr {:?}",
+                    name, sc, how, got.0, got.1, got.2, reference.0, reference.1, reference.2));
+                panic!("violation");
+            }
+        }
+    }
+    let _ = std::fs::remove_dir_all(&dir);
+    verif_out(&format!("VERIF-NATIVE name={} evaluated={} distinct={}", name, evaluated, evaluated));
+}
